@@ -140,11 +140,17 @@ RemKs    == {<<0>>, <<0, 0>>, <<1, 0>>, <<0, 1>>, <<2, 0>>, <<0, 3>>}      \* in
 CtorTakesItems == Kind \in {"FPCal", "Optical"}
 HasRemoveLabel == Kind = "EMG"
 HasRemoveIdx   == Kind = "FPCal"
+HasRemoveItem  == Kind \in {"FPCal", "Optical", "Events"}      \* by item object (remove_platform / list.remove)
 HasAssign      == Kind \in {"Data3D", "Force", "FPCal", "FPData"}
 HasBulk        == Kind = "FPCal"
 HasLookup      == Kind \in IndexKinds
 BadItems       == Kind \in LengthKinds
 HasContent     == Edits /\ Kind \in {"EMG", "Data3D", "Force", "FPData", "Events", "FPCal", "Optical"}   \* items whose content can be edited in place
+
+\* channel lists of whole-list assignment / bulk add (all inside MaxChan: a value beyond the bound
+\* would be pruned by the state constraint and never toured - bin/audit-graphs)
+AssignCs == {<<>>, <<0, 2>>, <<2, 2>>, <<1, 0>>}
+BulkCs   == {<<>>, <<0, 2>>, <<2, 2>>, <<1, 0>>}
 
 Calls ==
   {CallConstruct(i, ls) : i \in 1..NI, ls \in (IF CtorTakesItems THEN LabelSeqs(2) ELSE {<<>>})}
@@ -153,10 +159,10 @@ Calls ==
                               g \in (IF BadItems THEN BOOLEAN ELSE {TRUE}),
                               c \in (IF HasChans THEN Chans \cup {Auto} ELSE {Auto})}
   \cup (IF HasRemoveLabel THEN {CallRemove(i, "label", l) : i \in {k \in 1..NI : w[k].ex}, l \in Labels} ELSE {})
-  \cup (IF HasRemoveIdx THEN {CallRemove(i, "index", k) : i \in {k \in 1..NI : w[k].ex}, k \in 0..MaxItems}
-                             \cup UNION {{CallRemove(i, "item", id) : id \in Ids(w[i])} : i \in {k \in 1..NI : w[k].ex}} ELSE {})
+  \cup (IF HasRemoveIdx THEN {CallRemove(i, "index", k) : i \in {k \in 1..NI : w[k].ex}, k \in 0..MaxItems} ELSE {})
+  \cup (IF HasRemoveItem THEN UNION {{CallRemove(i, "item", id) : id \in Ids(w[i])} : i \in {k \in 1..NI : w[k].ex}} ELSE {})
   \cup (IF HasAssign THEN {CallAssign(i, p, cs) : i \in {k \in 1..NI : w[k].ex}, p \in Pats,
-                                                  cs \in (IF Kind = "FPCal" THEN {<<0, 2>>, <<2, 2>>, <<5, 0>>} ELSE {<<>>})} ELSE {})
+                                                  cs \in (IF Kind = "FPCal" THEN AssignCs \ {<<>>} ELSE {<<>>})} ELSE {})
   \cup (IF HasBulk THEN {CallBulkAdd(i, ls, cs) : i \in {k \in 1..NI : w[k].ex}, ls \in LabelSeqs(2) \ {<<>>},
                                                   cs \in {<<>>, <<0, 2>>, <<5, 5>>}} ELSE {})
   \cup (IF HasBulk THEN {CallBulkRemove(i, ks) : i \in {k \in 1..NI : w[k].ex}, ks \in RemKs} ELSE {})
@@ -188,7 +194,7 @@ Decode(i, j)          == Ex(i) /\ i # j /\ Act(CallDecode(i, j))
 Add(i, l, g, c)       == Ex(i) /\ (g \/ BadItems) /\ (c = Auto \/ HasChans) /\ Act(CallAdd(i, l, g, c))
 RemoveLabel(i, l)     == Ex(i) /\ HasRemoveLabel /\ Act(CallRemove(i, "label", l))
 RemoveIndex(i, k)     == Ex(i) /\ HasRemoveIdx /\ Act(CallRemove(i, "index", k))
-RemoveItem(i, pos)    == Ex(i) /\ HasRemoveIdx /\ pos <= Len(w[i].items) /\ Act(CallRemove(i, "item", w[i].items[pos].id))
+RemoveItem(i, pos)    == Ex(i) /\ HasRemoveItem /\ pos <= Len(w[i].items) /\ Act(CallRemove(i, "item", w[i].items[pos].id))
 Assign(i, p, cs)      == Ex(i) /\ HasAssign /\ ((Kind = "FPCal") <=> (cs # <<>>)) /\ Act(CallAssign(i, p, cs))
 BulkAdd(i, ls, cs)    == Ex(i) /\ HasBulk /\ Act(CallBulkAdd(i, ls, cs))
 Lookup(i, what, key)  == Ex(i) /\ HasLookup /\ Act(CallLookup(i, what, key))
@@ -199,8 +205,6 @@ Poke(i)               == Ex(i) /\ Act(CallPoke(i))
 AssignFrom(i, j)      == Ex(i) /\ Ex(j) /\ i # j /\ Kind \in {"Data3D", "Force"} /\ Act(CallAssignFrom(i, j))
 
 BulkRemove(i, ks)     == Ex(i) /\ HasBulk /\ Act(CallBulkRemove(i, ks))
-AssignCs == {<<>>, <<0, 2>>, <<2, 2>>, <<1, 0>>}
-BulkCs   == {<<>>, <<0, 2>>, <<2, 2>>, <<1, 0>>}
 Next ==
   \/ Begin
   \/ \E i \in 1..NI :
